@@ -356,10 +356,6 @@ func (x *runner) one(sd *Seed, inputsPer int) {
 // bound (bytes handed out + readSlack Reads), without panic or hang.
 func (x *runner) faultRuns(sd *Seed, sch omniparser.Schema, schema []byte, muts []string, n int) {
 	r, sum := x.r, x.sum
-	if on("csv_rows_small") && !csvRowsSmall(schema) {
-		sum.Hist("guard-skip:csv_rows_small")
-		return
-	}
 	in := sd.Valid(r)
 	if r.Chance(0.2) {
 		in, _ = genInput(r, sd)
